@@ -13,8 +13,8 @@
    recent first), `pw` a window into (dummy :: prev) positioned so that pw = [prev[x-1]; prev[x];
    prev[x+1]; ...]. The edge variables prevFirstPrev/prevNeg1 (one component) and
    previousLineFirst/previousPreviousLineFirst (interleaved) are kept as coded.
-   Model domain: the encoders' pixel buffer holds exactly width*height*components samples
-   (other buffer sizes are C17's subject; the model answers Err there, Go does not). *)
+   Buffers longer than width*height*components samples are accepted (the rest is ignored),
+   shorter ones are refused by the encoders' guard, as in the Go code. *)
 From V Require Import Common.Base JpegLS.JlsParams JpegLS.JlsGolomb JpegLS.JlsRun.
 
 Inductive pkg : Type := PkLossless | PkNear.
@@ -731,10 +731,10 @@ Definition encode_image (pk : pkg) (w h comps bd near : Z) (pixelData : list Z) 
   else if negb (comps =? 1) && negb (comps =? 3) then Err
   else if (bd <? 2) || (bd >? 16) then Err
   else if (match pk with PkNear => (near <? 0) || (near >? 255) | PkLossless => false end) then Err
+  else if (w >? 65535) || (h >? 65535) then Err                      (* ErrInvalidDimensions *)
+  else if zlen pixelData <? w * h * comps * Z.quot (bd + 7) 8 then Err  (* ErrBufferTooSmall *)
   else
     let pixels := pixelsToIntegers bd pixelData in
-    if negb (zlen pixels =? w * h * comps) then Err     (* model domain, see header *)
-    else
       let p := jls_params bd near in
       match encode_scan_ops pk p w h comps pixels with
       | Ok ops =>
@@ -786,10 +786,10 @@ Definition dst_init : dstate := mkDst 0 0 0 0 0 0 0 0 0 (mkJParams 0 0 0 0 0 0 0
 Definition zn (l : list Z) (i : Z) : Z := nth (Z.to_nat i) l 0.
 Definition go_maxval (bd : Z) : Z := wrapS 64 (wrapS 64 (Z.shiftl 1 bd) - 1).
 
-(* lossless initCodingParameters(t1,t2,t3) ; the division in computeThresholds panics for
-   maxVal + 1 = 0 *)
+(* lossless initCodingParameters(t1,t2,t3). maxVal + 1 = 0 (division by zero in
+   computeThresholds) cannot occur any more: parseSOF55 accepts precision 2..16 only and LSE
+   sets maxVal only to 1..65535. *)
 Definition ll_init_params (d : dstate) (maxVal reset t1 t2 t3 : Z) : outcome dstate :=
-  if maxVal + 1 =? 0 then Panic else
   let par := ComputeCodingParameters maxVal 0 reset in
   let use_def := (t1 =? 0) || (t2 =? 0) || (t3 =? 0) in
   let t1' := if use_def then jp_t1 par else t1 in
@@ -800,12 +800,14 @@ Definition ll_init_params (d : dstate) (maxVal reset t1 t2 t3 : Z) : outcome dst
 
 Definition parse_sof (pk : pkg) (d : dstate) (data : list Z) : outcome dstate :=
   if zlen data <? 6 then Err else
+  if negb (d_w d =? 0) || negb (d_h d =? 0) then Err else      (* second frame header *)
   let bd := zn data 0 in
   let h := Z.lor (Z.shiftl (zn data 1) 8) (zn data 2) in
   let w := Z.lor (Z.shiftl (zn data 3) 8) (zn data 4) in
   let comps := zn data 5 in
   if (w <=? 0) || (h <=? 0) then Err
   else if negb (comps =? 1) && negb (comps =? 3) then Err
+  else if (bd <? 2) || (bd >? 16) then Err                      (* ErrInvalidPrecision *)
   else
     let maxVal := go_maxval bd in
     let d1 := mkDst bd w h comps maxVal 64 (d_t1 d) (d_t2 d) (d_t3 d) (d_par d) in
@@ -848,7 +850,6 @@ Definition parse_sos (pk : pkg) (d : dstate) (data : list Z) : outcome (jparams 
     | PkLossless => Ok (d_par d, 0)
     | PkNear =>
       (* applyCodingParameters *)
-      if d_maxval d + 1 =? 0 then Panic else
       let reset := if d_reset d >? 0 then d_reset d else 64 in
       let par := ComputeCodingParameters (d_maxval d) near reset in
       Ok (mkJParams (d_maxval d) near (jp_range par) (jp_qbpp par) (jp_limit par)
@@ -906,6 +907,10 @@ Definition decode_scan (pk : pkg) (lim : Z) (d : dstate) (p : jparams) (near : Z
   end.
 
 Definition is_rst (m : Z) : bool := (208 <=? m) && (m <=? 215).
+(* standard.IsSOF: SOF0-3, SOF5-7, SOF9-11, SOF13-15 *)
+Definition is_sof (m : Z) : bool :=
+  ((192 <=? m) && (m <=? 195)) || ((197 <=? m) && (m <=? 199)) ||
+  ((201 <=? m) && (m <=? 203)) || ((205 <=? m) && (m <=? 207)).
 
 (* the segment loop of decode(); fuel = number of bytes (every iteration consumes some) *)
 Fixpoint decode_segments (fuel : nat) (pk : pkg) (lim : Z) (d : dstate) (bs : list Z) : outcome decoded :=
@@ -943,6 +948,7 @@ Fixpoint decode_segments (fuel : nat) (pk : pkg) (lim : Z) (d : dstate) (bs : li
           end
         end
       else if m =? 217 then Err
+      else if is_sof m then Err                                 (* ErrUnsupportedFormat *)
       else if (m =? 216) || is_rst m then decode_segments f pk lim d r
       else
         match read_segment r with
